@@ -548,7 +548,8 @@ def gen_case(rnd, check, tier, idx):
         pat = gen_pattern(rnd, sequential)
         if rnd.random() < 0.07:
             # long patterns (beyond any small internal buffer / cache-key length)
-            pat = ''.join(rnd.choice(['ab', '[ab]', 'a?', '\\d', 'x*', '.', 'c', 'b+', ' ']) for _ in range(rnd.choice([30, 45, 70, 130]))) + \
+            # (fixed-width atoms only: long runs of adjacent quantifiers backtrack polynomially and can hang a shard)
+            pat = ''.join(rnd.choice(['ab', '[ab]', 'a', '\\d', 'x', '.', 'c', 'b', ' ', '[^z]']) for _ in range(rnd.choice([30, 45, 70, 130]))) + \
                 rnd.choice(['', '(z)?', '(?P<n1>y)', 'q'])
         if C.parse(pat).error:
             pat = 'a(b)?'
